@@ -1110,7 +1110,9 @@ class tensor:
                [4., 4.]]), array([[4., 4.],
                [4., 4.]])]
         """
+        weights = None
         if isinstance(U, ttb.ktensor):
+            weights = U.weights
             U = U.factor_matrices
         split_idx = min_split(self.shape)
         V = [np.empty_like(self.data, shape=())] * self.ndims
@@ -1128,6 +1130,9 @@ class tensor:
             V[k] = mttv_mid(W, U[k + 1 :])
             W = mttv_left(W, U[k])
         V[-1] = W
+        if weights is not None:
+            # As in mttkrp, the weights of a ktensor scale every component
+            V = [v * weights[None, :] for v in V]
         return V
 
     @property
